@@ -848,8 +848,9 @@ def _observe_inp(inp):
 
 # ----------------------------------------------------------------------------- run
 def _tlc_many(ctx, jobs, workers=3, parallel=6):
-    """run several exhaustive configs concurrently (JVM start-up dominates the small slices); accounting
-    and vacuity guards exactly as ctx.tlc, done serially afterwards"""
+    """start several exhaustive configs concurrently (JVM start-up dominates the small slices) and yield
+    the results in job order as they become available, so that replaying one slice overlaps with model
+    checking the next; accounting and vacuity guards exactly as ctx.tlc"""
     from concurrent.futures import ThreadPoolExecutor
     import core
     import tlc as _tlc
@@ -860,23 +861,27 @@ def _tlc_many(ctx, jobs, workers=3, parallel=6):
                                 coverage=bool(job["require_actions"]), timeout=1500)
         except _tlc.TLCError as e:
             return e
-    with ThreadPoolExecutor(max_workers=parallel) as ex:
-        results = list(ex.map(one, jobs))
-    for job, res in zip(jobs, results):
-        if isinstance(res, Exception):
-            raise core.MachineryFailure(str(res))
-        res.output = ""
-        ctx.states += res.distinct
-        ctx.transitions += res.generated
-        ctx.tlc_runs.append(dict(module="Balance_MC", cfg=job["cfg"], **res.summary()))
-        for a in job["require_actions"]:
-            t = sum(res.coverage.get(n, (0, 0))[1] for n in {a, a[3:] if a.startswith("Gen") else a})
-            ctx.coverage_actions["Balance_MC!%s" % a] = t
-            if t == 0:
-                raise core.MachineryFailure("vacuity: action %s of Balance_MC never taken under %s" % (a, job["cfg"]))
-        if len(res.cases) < 100:
-            raise core.MachineryFailure("vacuity: %s produced %d cases (< 100)" % (job["cfg"], len(res.cases)))
-    return results
+    ex = ThreadPoolExecutor(max_workers=parallel)
+    try:
+        futures = [ex.submit(one, job) for job in jobs]
+        for job, fut in zip(jobs, futures):
+            res = fut.result()
+            if isinstance(res, Exception):
+                raise core.MachineryFailure(str(res))
+            res.output = ""
+            ctx.states += res.distinct
+            ctx.transitions += res.generated
+            ctx.tlc_runs.append(dict(module="Balance_MC", cfg=job["cfg"], **res.summary()))
+            for a in job["require_actions"]:
+                t = sum(res.coverage.get(n, (0, 0))[1] for n in {a, a[3:] if a.startswith("Gen") else a})
+                ctx.coverage_actions["Balance_MC!%s" % a] = t
+                if t == 0:
+                    raise core.MachineryFailure("vacuity: action %s of Balance_MC never taken under %s" % (a, job["cfg"]))
+            if len(res.cases) < 100:
+                raise core.MachineryFailure("vacuity: %s produced %d cases (< 100)" % (job["cfg"], len(res.cases)))
+            yield res
+    finally:
+        ex.shutdown(wait=True)
 
 
 def run(ctx):
@@ -889,7 +894,8 @@ def run(ctx):
                               for sl in slices])
     for sl, res in zip(slices, results):
         cfg = "Balance_MC_%s.cfg" % sl
-        cases = res.cases
+        # TLC's workers print the cases in a run-dependent order: sort, so that the seed decides the sample
+        cases = sorted(res.cases, key=lambda c: json.dumps(c["in"], sort_keys=True))
         classes = set(c["exp"]["c"] for c in cases)
         if sl == "tiny_q" and not {"ray_pos", "ray_neg", "ray_zero", "infeasible", "multi"} <= classes:
             raise core.MachineryFailure("vacuity: classes missing in %s: %s" % (sl, sorted(classes)))
